@@ -182,8 +182,8 @@ Lemma username_ok_nz u : username_ok u = true -> forallb nz u = true.
 Proof.
   destruct u as [|a r]; [discriminate|]. destruct r as [|b r'].
   - cbn [username_ok forallb]. intro H. unfold nz. rewrite (alnum_nonzero a H). reflexivity.
-  - set (r := b :: r'). intro H. change (username_ok (a :: r)) with (is_alnum a && (2 <=? length r) && forallb is_inner (removelast r) && is_alnum (last r x00)) in H.
-    apply andb_true_iff in H; destruct H as [H H4]; apply andb_true_iff in H; destruct H as [H H3]; apply andb_true_iff in H; destruct H as [H1 H2].
+  - set (r := b :: r'). intro H. change (username_ok (a :: r)) with (is_alnum a && forallb is_inner (removelast r) && is_alnum (last r x00)) in H.
+    apply andb_true_iff in H; destruct H as [H H4]; apply andb_true_iff in H; destruct H as [H1 H3].
     cbn [forallb]. unfold nz at 1. rewrite (alnum_nonzero a H1). cbn [negb andb].
     rewrite (app_removelast_last x00 (l := r)) by discriminate. rewrite forallb_app. apply andb_true_iff. split.
     + rewrite forallb_forall in *. intros y Hy. unfold nz. rewrite (inner_nonzero y (H3 y Hy)). reflexivity.
